@@ -122,6 +122,28 @@ UNIT = Unit(
                f"  forall|j: int| 0 <= j < {mt.group(1)} ==> (#[trigger] param_tys@[j]) == params_tast@[j].ty && (match params@[j].ty {{ Some(h) => annot_ty(h, param_tys@[j]) && "
                f"self.recorded().contains(Constraint::TypeEqual(param_tys@[j], expected_params@[j])), None => param_tys@[j] == expected_params@[j] }}),\n decreases params.len() - {mt.group(1)},") if mt else None)(
                re.search(r"while\s+(__zk\d+)\s*<\s*params\.len\(\)", header))),
+        # ---- blocks: the wrappers open the scope (C05 clause: top_fresh is the precondition of the walkers), the walkers type the block
+        whole("infer_block_expr", "ensures block_ok(exprs@, r, None),", "block: empty = unit; otherwise its expressions are elaborated in a scope opened for this block",
+              sigfix=[("exprs: &[ExprId]", "exprs: &Vec<ExprId>", 1)]),
+        whole("check_block_expr", "ensures block_ok(exprs@, r, Some(*expected)),", "block in checking mode: the same, the last expression checked against the expected type",
+              sigfix=[("exprs: &[ExprId]", "exprs: &Vec<ExprId>", 1)]),
+        whole("infer_block_exprs", "requires old(local_env).top_fresh(),\nensures block_ok(exprs@, r, None),", "block: every expression inferred in order, the type is the last one's",
+              sigfix=[("exprs: &[ExprId]", "exprs: &Vec<ExprId>", 1), ("let mut tast_exprs = Vec::new();", "let mut tast_exprs: Vec<Expr> = Vec::new();", 1),
+                      (re.compile(r"tast_exprs\s*\.(last|first)\(\)\s*\.map\(\|e\| e\.get_ty\(\)\)\s*\.unwrap_or\(Ty::TUnit\)"), r"\1_ty(&tast_exprs)", 1)],
+              loop_fn=lambda k, header, kw: (lambda mt: (f"invariant {mt.group(1)} <= exprs.len(), tast_exprs@.len() == {mt.group(1)},\n"
+                  f"  forall|j: int| 0 <= j < {mt.group(1)} ==> inferred(#[trigger] exprs@[j], tast_exprs@[j]),\n decreases exprs.len() - {mt.group(1)},") if mt else None)(
+                  re.search(r"while\s+(__fk\d+)\s*<\s*exprs\.len\(\)", header))),
+        Fn(file=C, name="check_block_exprs", container="Typer", ret="r", attrs="#[verifier::loop_isolation(false)]",
+           pre_rewrites=[("exprs: &[hir::ExprId]", "exprs: &Vec<ExprId>", 1), ("let mut tast_exprs = Vec::new();", "let mut tast_exprs: Vec<Expr> = Vec::new();", 1),
+                         (re.compile(r"for \((\w+), (\w+)\) in exprs\.iter\(\)\.enumerate\(\) \{"), r"let mut __en: usize = 0; for \2 in exprs.iter() { let \1 = __en; __en += 1;", 1),
+                         (re.compile(r"tast_exprs\s*\.(last|first)\(\)\s*\.map\(\|e\| e\.get_ty\(\)\)\s*\.unwrap_or\(tast::Ty::TUnit\)"), r"\1_ty(&tast_exprs)", 1)],
+           rewrites=[VC, PUSHED],
+           obligation="block in checking mode: all but the last expression inferred, the last one checked against the expected type; the type is the last one's",
+           contract="requires old(local_env).top_fresh(),\nensures block_ok(exprs@, r, Some(*expected)),",
+           loop_fn=lambda k, header, kw: (lambda mt: (f"invariant {mt.group(1)} <= exprs.len(), tast_exprs@.len() == {mt.group(1)}, __en == {mt.group(1)}, len == exprs.len(), len > 0,\n"
+               f"  forall|j: int| 0 <= j < {mt.group(1)} && j < exprs.len() - 1 ==> inferred(#[trigger] exprs@[j], tast_exprs@[j]),\n"
+               f"  {mt.group(1)} == exprs.len() ==> checked_as(exprs@[exprs.len() - 1], *expected, tast_exprs@[exprs.len() - 1]),\n decreases exprs.len() - {mt.group(1)},") if mt else None)(
+               re.search(r"while\s+(__fk\d+)\s*<\s*exprs\.len\(\)", header))),
         whole("infer_field_expr",
               "ensures r matches Expr::EField { expr: b, field_name, ty, astptr: _ } && inferred(expr, *b) && field_name@ == field.text()\n"
               "  && exists|f: TastIdent| #[trigger] final(self).recorded().contains(Constraint::StructFieldAccess { expr_ty: expr_ty(*b), field: f, result_ty: ty }) && f.0@ == field.text(),",
